@@ -233,6 +233,10 @@ func c10RunOnce(r *run.Runner, base *FuzzCase, c c10Case, judge bool) (nops int,
 				}
 			case in.FromStore && (fname == "error-before" || fname == "error-after") && faultOnWriteOnly(ex):
 				// the fault hit a write or delete after the lookup had succeeded
+			case in.FromStore && fname == "truncated-body" && sim.ParseBody(ex.Body).Intact && ex.BodyErr == "":
+				// the cut only removed framing bytes the decoder does not need
+				// (e.g. the tail of a chunked dump): the entry still decodes in full
+				r.Count("truncation_harmless", 1)
 			case in.FromStore && anotherEntryUsable(ex):
 			default:
 				r.Violation("store-fault-not-failed-open", fmt.Sprintf("fault=%s,result=%s", fname, ex.CacheStatus()), fmt.Sprintf("store fault %q struck before the foreground result, but the client did not get the origin's reply of this exchange; %s [base %d, store op %d]", fname, ex.Summary(), c.Base, c.Op), exSummaries(w))
@@ -456,5 +460,49 @@ func TestC10StaleUsable(t *testing.T) {
 			r.Violation("hang", "bubble-deadlock", "bubble failed: "+firstLine(fail), c)
 		}
 	}
+	r.Done()
+}
+
+// TestC10OddHeaders: malformed-but-sendable request header values in fields the
+// stored response's Vary nominates (they go through the header normalisers).
+func TestC10OddHeaders(t *testing.T) {
+	r := run.Start(t, "C10", "odd-headers")
+	defer r.Finish()
+	fields := []string{"Accept", "Accept-Encoding", "Accept-Language", "Accept-Charset", "TE", "User-Agent", "Authorization", "Cache-Control", "If-Modified-Since", "X-A"}
+	values := append(append([]string(nil), oddListValues...), "", "Basic", " Bearer x", "\t", "a\tb", strings.Repeat("a;q=0.5,", 300), strings.Repeat(";", 500), "\xff\xfe", "é;q=0.5")
+	idx := 0
+	for _, f := range fields {
+		for _, v := range values {
+			i := idx
+			idx++
+			if !r.Mine(i) {
+				continue
+			}
+			r.Begin(i, map[string]string{"field": f, "value": v})
+			fail := r.Bubble(func() {
+				w := sim.NewWorld(sim.WorldOpt{Handler: func(uc *sim.UpCall, req *http.Request) *sim.Reply {
+					return Render(&RespSpec{Status: 200, CC: []string{"max-age=60"}, Vary: []string{f}, BodySize: 5}, uc.Enter, uc.Serial)
+				}})
+				defer w.Close()
+				for k := 0; k < 3; k++ {
+					h := map[string][]string{f: {v}}
+					if k == 1 {
+						h = map[string][]string{f: {"plain"}}
+					}
+					ex := w.Do(sim.ReqSpec{URL: "http://a.example/odd", Header: h})
+					r.AddEvaluations(1)
+					in := mon.Classify(w, ex)
+					for _, vv := range mon.C10Basic(in) {
+						r.Violation(vv.Clause, vv.Sig+",field="+f, vv.Msg, exSummaries(w))
+					}
+				}
+				r.Nontrivial("oddhdr|" + f + "|" + v)
+			})
+			if fail != "" {
+				r.Violation("hang", "bubble-deadlock,field="+f, "bubble failure: "+firstLine(fail), nil)
+			}
+		}
+	}
+	r.SetExhaustive(true)
 	r.Done()
 }
